@@ -329,15 +329,15 @@ def check_tables(desc):
 CHECKS = {"kernel": check_kernel, "shapeset": check_shapeset, "tables": check_tables}
 
 
-def shards(tier):
+def shards(tier, seed=1):
     n = 1 if tier == "quick" else 10
     _, found = _parse_kernels()
     names = sorted(found)
     out = [{"check": "tables", "budget_s": 60}]
-    # shard kernels over processes
-    groups = [names[i::7] for i in range(7)]
+    ng = 4
+    groups = [names[i::ng] for i in range(ng)]
     for g in groups:
-        out.append({"check": "kernel", "names": g, "examples": 260 * len(g) * n, "budget_s": 150 * n})
+        out.append({"check": "kernel", "names": g, "examples": 260 * len(g) * n, "budget_s": 240 * n})
     out.append({"check": "shapeset", "examples": 300 * n, "budget_s": 60 * n})
     return out
 
